@@ -60,6 +60,20 @@ def check(ctx):
                 check_condfunctor(ctx, tu, f, ma)
             elif k == 'ArgumentAdapter::operator()':
                 check_adapter(ctx, tu, f)
+    # the wrappers own what they wrap: the listener / condition handed to conditionalFunctor or argumentAdapter is stored by value, in
+    # every instantiation (also when the caller passed lvalues) - a wrapper holding a reference follows whatever the caller's variable
+    # holds at dispatch time, or dangles once it is gone
+    for tu in ctx.tus:
+        for key in ('ConditionalFunctor', 'ArgumentAdapter'):
+            for c in tu.classes_by_key.get(key, []):
+                bad = []
+                for fl in c['fields']:
+                    t = tu.type(fl['t'])
+                    if t and (t['ref'] or t.get('ptr') is not None and 'std::function' not in t['s'] and not t['s'].rstrip().endswith(')')):
+                        bad.append('%s : %s' % (fl['name'], t['s'][:80]))
+                if c['fields']:
+                    ctx.ob('C12.F5', key, '%s stores the wrapped callables by value' % key, not bad, tu=tu,
+                           detail='reference/pointer members in %s: %s' % (c['q'][:120], '; '.join(bad)), key_detail='stores by value')
     ctx.require_min('C12.F1', 5)
     ctx.require_min('C12.F2', 3)
     ctx.require_min('C12.F3', 2)
@@ -196,6 +210,17 @@ def check_domixin(ctx, tu, f):
             got = [root_var_id(path(f, a, resolve_refs=False)) for a in f.call_args(calls[0])]
             ok = got == want
         ctx.ob('C12.F1', f, 'the gate returns the mixin\'s own verdict for the same arguments', ok, key_detail='domixin call')
+        # every mixin of the chain gets its own turn: the hook called at the level of chain type T has to be T's own. A hook that T only
+        # inherits from a mixin further down the chain is called again at that mixin's level - its filters run twice per dispatch
+        # (and see their own modifications of the arguments)
+        ta = f.d.get('targs') or []
+        if len(calls) == 1 and ta and isinstance(ta[0], int):
+            level = tu.tstr(ta[0]).strip()
+            owner = ((f.callee(calls[0]) or {}).get('clsq') or '').strip()
+            ctx.ob('C12.F1', f, 'the hook invoked at a chain level is declared by that level\'s mixin itself (each hook runs once per dispatch)',
+                   bool(owner) and owner == level,
+                   detail='at the level of %s the call resolves to the hook of %s, which is invoked again at its own level' % (level[:110], owner[:110]),
+                   key_detail='inherited hook')
     else:
         try:
             ok, _ = F.equivalent(F.formula(f, inline=False), ('const', True))
